@@ -490,17 +490,18 @@ theorem packBits_append_new (bs : List Bool) (v : Bool) (hz : bs.length % 256 = 
     simp only [List.length_append, List.length_singleton]; omega
   have hc2 : (bs.length + 255) / 256 = bs.length / 256 := by omega
   have hd := getD_append_singleton bs v false
-  refine (packBits_eq_range (bs ++ [v])).trans ?_
-  rw [hc, List.range_succ, List.map_append]
-  refine Eq.trans ?_ (congrArg (· ++ [bitSplice zeroChunk 0 v]) (packBits_eq_range bs)).symm
-  congr 1
-  · apply List.map_congr_left
+  have hA : (List.range ((bs.length + 255) / 256)).map (bitChunk (bs ++ [v]))
+      = (List.range ((bs.length + 255) / 256)).map (bitChunk bs) := by
+    apply List.map_congr_left
     intro j hj
     rw [List.mem_range] at hj
     rw [bitChunk_update bs (bs ++ [v]) bs.length v hd j, if_neg (by omega)]
-  · simp only [List.map_cons, List.map_nil]
+  have hx : bitChunk (bs ++ [v]) ((bs.length + 255) / 256) = bitSplice zeroChunk 0 v := by
     rw [bitChunk_update bs (bs ++ [v]) bs.length v hd _, if_pos (by omega),
       bitChunk_beyond bs _ (by omega), bitSplice_mod _ _ _ hz]
+  refine (packBits_eq_range (bs ++ [v])).trans ?_
+  rw [hc, List.range_succ, List.map_append, hA, List.map_cons, List.map_nil, hx]
+  exact (congrArg (· ++ [bitSplice zeroChunk 0 v]) (packBits_eq_range bs)).symm
 
 theorem packBits_pop_same (bs : List Bool) (hpos : 0 < bs.length) (hne : (bs.length - 1) % 256 ≠ 0)
     (hj : (bs.length - 1) / 256 < (packBits bs).length) :
@@ -517,5 +518,66 @@ theorem packBits_pop_remove (bs : List Bool) (hpos : 0 < bs.length)
   · conv => rhs; rw [← List.dropLast_concat_getLast hne]
     rw [packBits_append_new _ _ (by simpa using hz), List.dropLast_concat]
   · rw [packBits_length']; omega
+
+/-! ## 4. pointwise relations under `set` / `append` / `dropLast` -/
+
+section AllRel
+variable {α β : Type _} {R : α → β → Prop}
+
+theorem allRel_set : ∀ {as : List α} {bs : List β}, AllRel R as bs →
+    ∀ (i : Nat) (a : α) (b : β), R a b → AllRel R (as.set i a) (bs.set i b)
+  | [], [], _, _, _, _, _ => by simp [AllRel]
+  | x :: as, y :: bs, h, i, a, b, hr => by
+    cases i with
+    | zero => exact ⟨hr, h.2⟩
+    | succ i => exact ⟨h.1, allRel_set (as := as) (bs := bs) h.2 i a b hr⟩
+  | [], _ :: _, h, _, _, _, _ => by cases h
+  | _ :: _, [], h, _, _, _, _ => by cases h
+
+theorem allRel_append_singleton : ∀ {as : List α} {bs : List β}, AllRel R as bs →
+    ∀ (a : α) (b : β), R a b → AllRel R (as ++ [a]) (bs ++ [b])
+  | [], [], _, _, _, hr => ⟨hr, trivial⟩
+  | x :: as, y :: bs, h, a, b, hr =>
+    ⟨h.1, allRel_append_singleton (as := as) (bs := bs) h.2 a b hr⟩
+  | [], _ :: _, h, _, _, _ => by cases h
+  | _ :: _, [], h, _, _, _ => by cases h
+
+theorem allRel_dropLast : ∀ {as : List α} {bs : List β}, AllRel R as bs →
+    AllRel R as.dropLast bs.dropLast
+  | [], [], _ => trivial
+  | [_], [_], _ => trivial
+  | x :: x' :: as, y :: y' :: bs, h =>
+    ⟨h.1, allRel_dropLast (as := x' :: as) (bs := y' :: bs) h.2⟩
+  | [], _ :: _, h => by cases h
+  | _ :: _, [], h => by cases h
+  | [_], _ :: _ :: _, h => by cases h.2
+  | _ :: _ :: _, [_], h => by cases h.2
+
+end AllRel
+
+theorem reprFields_set {H : Hash} : ∀ {fs : List Ty} {vs : List Val} {ns : List Node},
+    ReprFields H fs vs ns → ∀ (i : Nat) (ft : Ty) (x : Val) (m : Node), fs[i]? = some ft →
+    Impl.Repr H ft x m → ReprFields H fs (vs.set i x) (ns.set i m)
+  | [], [], [], _, i, _, _, _, hf, _ => by simp at hf
+  | t :: ts, v :: vs, n :: ns, h, i, ft, x, m, hf, hr => by
+    simp only [ReprFields] at h
+    cases i with
+    | zero =>
+      simp only [List.getElem?_cons_zero, Option.some.injEq] at hf
+      subst hf
+      simp only [List.set_cons_zero, ReprFields]
+      exact ⟨hr, h.2⟩
+    | succ i =>
+      simp only [List.getElem?_cons_succ] at hf
+      simp only [List.set_cons_succ, ReprFields]
+      exact ⟨h.1, reprFields_set (fs := ts) (vs := vs) (ns := ns) h.2 i ft x m hf hr⟩
+  | [], _ :: _, _, h, _, _, _, _, _, _ => by simp only [ReprFields] at h
+  | [], [], _ :: _, h, _, _, _, _, _, _ => by simp only [ReprFields] at h
+  | _ :: _, [], _, h, _, _, _, _, _, _ => by simp only [ReprFields] at h
+  | _ :: _, _ :: _, [], h, _, _, _, _, _, _ => by simp only [ReprFields] at h
+
+theorem map_leaf_set (cs : List Chunk) (j : Nat) (c : Chunk) :
+    (cs.map Node.leaf).set j (.leaf c) = (cs.set j c).map Node.leaf := by
+  rw [List.map_set]
 
 end Rmk.StepRepr
